@@ -115,7 +115,8 @@ static void run_pairs(void) {
                 ResourceError, ProgramAbortedError, DivisionByZeroError, IllegalInstructionError, ProgramInterruptedError,
                 SegmentationError, ProgramTerminationError, UserErrA, UserErrB, UserErr, IOErrorRetry, IOKind, TryKindA, TryKindB, PlainK11, PlainK12, PlainK21 };
   for (int fi = 0; fi < NK; fi++) for (int ti = 0; ti < NK; ti++) {
-    if (kind_sort(fi) != kind_sort(ti)) continue;      /* kinds of one sort per program: type objects, or objects of the user type */
+    /* kinds of different sorts meet as well: a type object as filter and a value object in flight (or the other way round) are
+       simply different kinds - deciding that must not itself raise */
     for (int dup = 0; dup < 2; dup++) {           /* dup: the filter names its kind twice, with another kind in between */
       if (dup && (fi + ti) % 3) continue;
       volatile int inner = 0, outer = 0, bound = -1, after = 0; volatile long d0 = depth_now();
